@@ -3306,6 +3306,18 @@ where
             }
         }
 
+        // Positive geometric cell orientation is a Level 3 invariant under every topology
+        // guarantee, but only the PL-manifold guarantees re-validate below. Insertion fallbacks and
+        // the D>=4 finalize repair can leave individual cells with the opposite vertex order, so
+        // restore the canonical orientation before handing the triangulation out.
+        if self.tri.tds.number_of_cells() > 0 {
+            self.tri
+                .normalize_and_promote_positive_orientation()
+                .map_err(|err| TriangulationConstructionError::GeometricDegeneracy {
+                    message: format!("Orientation normalization failed after construction: {err}"),
+                })?;
+        }
+
         if topology.requires_vertex_links_at_completion() {
             tracing::debug!("post-construction: starting topology validation (finalize)");
             let validation_started = Instant::now();
